@@ -228,7 +228,72 @@ func deadRecordVersions(disk string) []int64 {
 
 // ---------------------------------------------------------------- C04
 
+// c04longLived: one block-state trie object lives through all rounds of the history (the version is advanced with
+// SetVersion, the pending change set keeps growing and is saved again every round, sometimes twice in a row): after
+// every save every root saved so far must be complete on the store alone.
+func c04longLived(c *fw.Ctx) {
+	r := c.Rng
+	g := lab.NewPathGen(r)
+	disk := fmt.Sprintf("/verif-stub/C04/%d/%d/long", c.Seed, c.Idx)
+	defer grocksdb.DropDisk(disk)
+	pndb, err := util.NewPNodeDB(disk, "")
+	if err != nil {
+		panic(err)
+	}
+	defer pndb.Close()
+	cur := map[string][]byte{}
+	grave := map[string][]byte{}
+	var saved []rSaved
+	P := lab.NewMPT(util.NewLevelNodeDB(util.NewMemoryNodeDB(), pndb, false), 1, nil)
+	nrounds := 3 + r.Intn(6)
+	for v := int64(1); v <= int64(nrounds); v++ {
+		P.SetVersion(util.Sequence(v))
+		rd, next := genRound(c, g, v, cur, grave)
+		c.Tracef("%s", rd.String())
+		for _, tx := range rd.txns {
+			C := lab.NewMPT(util.NewLevelNodeDB(util.NewMemoryNodeDB(), P.GetNodeDB(), false), v, P.GetRoot())
+			for _, op := range tx.ops {
+				if op.del {
+					_, _ = C.Delete(util.Path(op.path))
+				} else if _, ierr := C.Insert(util.Path(op.path), &lab.Val{B: op.val}); ierr != nil {
+					c.Violate("", "long-lived trie, v%d: insert %q in a child failed: %v", v, op.path, ierr)
+					return
+				}
+			}
+			if tx.merge {
+				if merr := P.MergeMPTChanges(C); merr != nil {
+					c.Violate("", "long-lived trie, v%d: merge failed: %v", v, merr)
+					return
+				}
+			}
+		}
+		nsaves := 1 + r.Intn(2)
+		for k := 0; k < nsaves; k++ {
+			if serr := P.SaveChanges(context.Background(), pndb, false); serr != nil {
+				c.Violate("", "long-lived trie, v%d: SaveChanges failed: %v", v, serr)
+				return
+			}
+		}
+		saved = append(saved, rSaved{version: v, root: append([]byte(nil), P.GetRoot()...), model: lab.CopyContent(next)})
+		cur = next
+		for _, s := range saved {
+			if f := checkReadable(disk, s); f != "" {
+				c.Violate("", "one trie object used for all rounds (SetVersion per round, %d save(s) in this round): after saving v%d: %s\nhistory: %s", nsaves, v, f, strings.Join(c.Trace(), "\n"))
+				return
+			}
+			c.Count("roots_reread", 1)
+		}
+		c.Count("rounds_on_a_long_lived_trie", 1)
+	}
+	c.Count("long_lived_trie_histories", 1)
+	c.Distinct("nontrivial", fw.Hash64("long", c.Idx, len(saved)))
+}
+
 func runC04(c *fw.Ctx) {
+	if (c.Idx/16+c.Idx)%6 == 4 {
+		c04longLived(c)
+		return
+	}
 	r := c.Rng
 	g := lab.NewPathGen(r)
 	disk := fmt.Sprintf("/verif-stub/C04/%d/%d/main", c.Seed, c.Idx)
@@ -655,7 +720,7 @@ func init() {
 		Rule: "each case is a history of 3..10 rounds on a persistent store (real PNodeDB over the logging/crashing grocksdb stand-in). A round = block trie layered over the store at the previous saved root, 1..4 child transactions (1..6 inserts/deletes each, including delete-then-recreate of " +
 			"identical content, re-creation of content deleted in earlier rounds, unchanged re-writes) merged or discarded, then an existence probe of the new root on the store, SaveChanges(includeDeletes=false), RecordDeadNodes and a completeness read of the saved root through the same store object; random PruneBelowVersion in between; about every 32nd history contains one fat round (300..1100 inserts: several hundred to more than a thousand changed nodes in one save). After each save every retained root is re-read on a re-opened store " +
 			"(HasMissingNodes, lookups, Iterate, raw stored bytes through the harness' parser). For EVERY prefix length i=0..W of the save's physical write stream the round is re-executed from a copy of the pre-round disk with the store crashing after i writes; after restart every earlier " +
-			"retained root must be fully readable and re-executing + re-saving the round must give the same root and a complete state; the same failure is also played as a transient write error (the same trie and store objects retry the save once the store accepts writes again: a retry that reports success must leave a complete state). non-trivial/distinct = distinct (history, round, crash index, root) points",
+			"retained root must be fully readable and re-executing + re-saving the round must give the same root and a complete state; the same failure is also played as a transient write error (the same trie and store objects retry the save once the store accepts writes again: a retry that reports success must leave a complete state). A sixth of the histories instead keep ONE block-state trie object through all rounds (SetVersion per round, children merged into it, the growing pending set saved again every round, sometimes twice in a row) and re-read every saved root from the store alone after every save. non-trivial/distinct = distinct (history, round, crash index, root) points",
 		Cases: func(tier string) int {
 			if tier == "thorough" {
 				return 48000
@@ -663,7 +728,7 @@ func init() {
 			return 2000
 		},
 		Run:        runC04,
-		Floors:     map[string]int64{"histories": 1800, "rounds": 10000, "crash_points": 30000, "roots_reread": 30000, "prunes": 1000, "recreate_same_txn": 1000, "recreate_from_graveyard": 1000, "max:save_stream_writes": 2, "fat_rounds": 30, "same_object_save_retries": 15000},
+		Floors:     map[string]int64{"histories": 1500, "long_lived_trie_histories": 250, "rounds_on_a_long_lived_trie": 1200, "rounds": 9000, "crash_points": 30000, "roots_reread": 30000, "prunes": 1000, "recreate_same_txn": 1000, "recreate_from_graveyard": 1000, "max:save_stream_writes": 2, "fat_rounds": 30, "same_object_save_retries": 15000},
 		Exhaustive: nil,
 		Assumptions: []string{
 			"the store is modelled as a sorted KV store with atomic write batches and process-crash durability of completed writes (wo.SetSync(false)); OS-crash loss of unsynced WAL is out of scope",
